@@ -109,6 +109,8 @@ type FnEnc struct {
 	rawUsed  map[string]bool
 	fbits    map[string]string
 	heapTouch int
+	gaddrs   map[string]bool
+	stableGlobals map[string]bool
 	specApps map[string]bool
 	rawOrder []string
 	usedContracts map[string]bool
@@ -147,6 +149,7 @@ type frame struct {
 	throws   []throwRec
 	variants map[int]string
 	locals   []localAlloc // non-escaping allocations: untouched by callees and havocs
+	ghostRetTypes map[int]types.Type
 	calleePure string     // condition under which the call being applied is pure
 	inLoopHavoc bool
 }
@@ -346,6 +349,10 @@ func (f *frame) loadLoc(l *Loc, h Heap) string {
 		if _, ok := l.elemT.Underlying().(*types.Struct); ok {
 			return f.loadStruct(l.base, l.elemT, h)
 		}
+		if arr, ok := l.elemT.Underlying().(*types.Array); ok {
+			key, sort := e.elemHeapKey(arr.Elem())
+			return fmt.Sprintf("(select %s %s)", e.heapGet(h, key, sort), l.base)
+		}
 		key, sort := e.cellHeapKey(l.elemT)
 		return fmt.Sprintf("(select %s %s)", e.heapGet(h, key, sort), l.base)
 	case locGlobal:
@@ -353,6 +360,14 @@ func (f *frame) loadLoc(l *Loc, h Heap) string {
 			return t
 		}
 		key := "G_" + mangle(l.global.Pkg.Pkg.Name()+"."+l.global.Name())
+		if e.E.globalIsStable(l.global) {
+			// written only by its package initialiser: one fixed (unknown) value
+			if e.stableGlobals == nil {
+				e.stableGlobals = map[string]bool{}
+			}
+			e.stableGlobals[key] = true
+			return e.R.heapConst(key, e.R.sortOf(l.elemT))
+		}
 		return e.heapGet(h, key, e.R.sortOf(l.elemT))
 	}
 	bail("loadLoc")
@@ -424,6 +439,12 @@ func (f *frame) storeLoc(l *Loc, val string, h Heap) {
 	case locCell:
 		if _, ok := l.elemT.Underlying().(*types.Struct); ok {
 			f.storeStruct(l.base, l.elemT, val, h)
+			return
+		}
+		if arr, ok := l.elemT.Underlying().(*types.Array); ok {
+			key, sort := e.elemHeapKey(arr.Elem())
+			cur := e.heapGet(h, key, sort)
+			e.heapSet(h, key, sort, fmt.Sprintf("(store %s %s %s)", cur, l.base, val))
 			return
 		}
 		key, sort := e.cellHeapKey(l.elemT)
@@ -591,7 +612,7 @@ func isSigned(t types.Type) bool {
 func (e *FnEnc) newFrame(fn *ssa.Function, prefix string) *frame {
 	return &frame{enc: e, fn: fn, prefix: prefix, vals: map[ssa.Value]SV{},
 		reach: map[*ssa.BasicBlock]string{}, heapOut: map[*ssa.BasicBlock]Heap{},
-		pcOut: map[*ssa.BasicBlock]string{}, namedVals: map[string]ssa.Value{}}
+		pcOut: map[*ssa.BasicBlock]string{}, namedVals: map[string]ssa.Value{}, ghostRetTypes: map[int]types.Type{}}
 }
 
 func (f *frame) name(v ssa.Value) string {
@@ -624,6 +645,24 @@ func (f *frame) get(v ssa.Value) SV {
 	return SV{}
 }
 
+// globalAddr: the address of a package-level struct variable as a reference constant
+// (positive, distinct from every other global's address).
+func (e *FnEnc) globalAddr(g *ssa.Global) string {
+	name := "gaddr!" + mangle(g.Pkg.Pkg.Name()+"."+g.Name())
+	e.R.extra(fmt.Sprintf("(declare-const %s Int)", name))
+	e.R.extra(fmt.Sprintf("(assert (> %s 0))", name))
+	if e.gaddrs == nil {
+		e.gaddrs = map[string]bool{}
+	}
+	if !e.gaddrs[name] {
+		for other := range e.gaddrs {
+			e.R.extra(fmt.Sprintf("(assert (not (= %s %s)))", name, other))
+		}
+		e.gaddrs[name] = true
+	}
+	return name
+}
+
 func (e *FnEnc) funcRef(fn *ssa.Function) string {
 	name := "fn!" + mangle(funcKey(fn))
 	e.R.extra(fmt.Sprintf("(declare-const %s Int)", name))
@@ -635,7 +674,15 @@ func (e *FnEnc) funcRef(fn *ssa.Function) string {
 func (f *frame) scalar(v ssa.Value) string {
 	sv := f.get(v)
 	if sv.loc != nil {
-		// pointer into a struct / slice used as a value: give it an opaque reference
+		if sv.loc.kind == locGlobal {
+			if _, isStruct := sv.loc.elemT.Underlying().(*types.Struct); isStruct {
+				return f.enc.globalAddr(sv.loc.global)
+			}
+		}
+		if sv.loc.kind == locCell {
+			return sv.loc.base
+		}
+		// pointer into a struct / slice used as a value: not representable as a reference
 		bail("address value %s used as first-class pointer in %s", v.Name(), f.fn.Name())
 	}
 	if sv.tuple != nil {
@@ -992,11 +1039,14 @@ func (f *frame) loopHead(li *loopInfo) {
 		c := f.evalContractBool(inv, f.curHeap, nil, nil)
 		f.oblige(fmt.Sprintf("inv.init@%d.%d", li.ord, i+1), "", c, inv.Text, token.NoPos)
 	}
-	var decs []string
-	for _, d := range f.loopDecreases(li) {
-		_ = d
+	// built-in invariant of go/ssa's range-over-slice loops (proved like any other)
+	for _, in := range b.Instrs {
+		if phi, ok := in.(*ssa.Phi); ok {
+			if inv := f.rangeInv(li, phi, f.vals[phi].term); inv != "" {
+				f.oblige(fmt.Sprintf("inv.init@%d.range", li.ord), "", inv, "-1 <= rangeindex < len (built-in)", token.NoPos)
+			}
+		}
 	}
-	_ = decs
 	// havoc phis
 	for _, in := range b.Instrs {
 		phi, ok := in.(*ssa.Phi)
@@ -1006,6 +1056,9 @@ func (f *frame) loopHead(li *loopInfo) {
 		n, inv := e.havoc(f.name(phi)+"!loop", phi.Type())
 		f.set(phi, n)
 		f.assume(inv)
+		if inv := f.rangeInv(li, phi, n); inv != "" {
+			f.assume(inv)
+		}
 	}
 	// havoc heap arrays written in the loop
 	f.inLoopHavoc = true
@@ -1055,6 +1108,13 @@ func (f *frame) backEdge(from, head *ssa.BasicBlock, succIdx int) {
 		c := f.evalContractBool(inv, f.curHeap, nil, nil)
 		f.oblige(fmt.Sprintf("inv.preserve@%d.%d", li.ord, i+1), "", c, inv.Text, token.NoPos)
 	}
+	for _, in := range head.Instrs {
+		if phi, ok := in.(*ssa.Phi); ok {
+			if inv := f.rangeInv(li, phi, f.vals[phi].term); inv != "" {
+				f.oblige(fmt.Sprintf("inv.preserve@%d.range", li.ord), "", inv, "-1 <= rangeindex < len (built-in)", token.NoPos)
+			}
+		}
+	}
 	f.checkVariant(li)
 	for k, v := range saveVals {
 		f.vals[k] = v
@@ -1086,8 +1146,21 @@ func (f *frame) loopWrites(li *loopInfo) []string {
 func (f *frame) havocAllHeap() {
 	f.wrote("call with unknown side effects")
 	old := f.curHeap.clone()
+	e := f.enc
+	var ks []string
 	for k := range f.curHeap {
-		delete(f.curHeap, k)
+		ks = append(ks, k)
+	}
+	sort.Strings(ks)
+	for _, k := range ks {
+		if strings.HasPrefix(k, "ghost!") || k == "!epoch" {
+			continue
+		}
+		if sortS, ok := e.R.heapDecl[k]; ok && !strings.HasPrefix(f.curHeap[k], "?") {
+			f.curHeap[k] = e.declare(e.fresh(k), sortS)
+		} else {
+			delete(f.curHeap, k)
+		}
 	}
 	f.curHeap["!epoch"] = f.enc.fresh("epoch")
 	f.restoreLocals(old, nil)
@@ -1126,4 +1199,30 @@ func (f *frame) restoreLocals(old Heap, only map[string]bool) {
 			}
 		}
 	}
+}
+
+// rangeInv: for the hidden index phi of a range-over-slice/string loop
+//   i = phi(-1, i+1); if i+1 < n ...
+// the invariant -1 <= i < n (n is computed before the loop).
+func (f *frame) rangeInv(li *loopInfo, phi *ssa.Phi, term string) string {
+	if phi.Comment != "rangeindex" {
+		return ""
+	}
+	var next ssa.Value
+	for _, in := range li.head.Instrs {
+		if b, ok := in.(*ssa.BinOp); ok {
+			if b.Op == token.ADD && b.X == phi {
+				next = b
+			}
+			if b.Op == token.LSS && next != nil && b.X == next {
+				if bv, ok := f.vals[b.Y]; ok && bv.term != "" {
+					return fmt.Sprintf("(and (bvsge %s #xffffffffffffffff) (bvslt %s %s))", term, term, bv.term)
+				}
+				if c, ok := b.Y.(*ssa.Const); ok {
+					return fmt.Sprintf("(and (bvsge %s #xffffffffffffffff) (bvslt %s %s))", term, term, f.enc.constTerm(c).term)
+				}
+			}
+		}
+	}
+	return ""
 }
